@@ -811,8 +811,20 @@ def main_wrapper(fn, pid, native_only=None):
             chk.evidence("undecided")
             rc = 2
     except Infra as e:
-        print("UNDECIDED property=%s reason=infrastructure %s" % (pid, e))
+        # a tool or build step failed (e.g. the extracted text no longer compiles): no proof; the stages on the real code
+        # can still run, and a failure they find is a confirmed violation
         chk.undecided.append("infrastructure: %s" % e)
-        chk.evidence("undecided")
-        rc = 2
+        chk.jobs = []
+        if native_only is not None and not a.replay and not chk.violations:
+            try:
+                native_only(chk)
+            except (Infra, ExtractionError) as e2:
+                chk.undecided.append("native-only stage: %s" % e2)
+        if chk.violations:
+            print("UNDECIDED-PROOF property=%s reason=infrastructure %s (violation below found by running the real code)" % (pid, str(e)[:300]))
+            rc = chk.finish()
+        else:
+            print("UNDECIDED property=%s reason=infrastructure %s" % (pid, e))
+            chk.evidence("undecided")
+            rc = 2
     return rc
